@@ -104,7 +104,10 @@ class Route:
             if f_out:
                 prt = f_out(prt)
             if f_in:
-                assert f_in(prt)[1]  # `pos` must be > 0 if match
+                # a filter may look ahead at the literal that follows (`path` does)
+                next_token = pattern_out.find('\r', cidx)
+                tail = pattern_out[cidx:next_token] if next_token >= 0 else pattern_out[cidx:]
+                assert f_in(prt + tail)[1]  # `pos` must be > 0 if match
             ret.append(prt)
 
         if clen:
